@@ -18,7 +18,7 @@ EXPLANATION += (  # round-3 supplement
     ' X2 finds the failure counter (or the folded result) by data flow. X4 every CLI sub-command loads its input with FileTree::read.'
 )
 EXPLANATION += (
-    ' X5 Module::get_function looks every name up under the package prefix (the one test discovery strips) on every path, so the mapping from the name a test case is built from to the exported symbol is injective.'
+    ' X5 Module::get_function looks every name up under the package prefix (the one test discovery strips) on every path, so the mapping from the name a test case is built from to the exported symbol is injective. X6 the four item checkers (function, filter_map, constant, test) each resolve the deferred obligations of the body before accepting the item.'
 )
 ASSUMPTIONS = [
     "process exit codes are produced only by roto::cli (main.rs returns its ExitCode)",
@@ -593,6 +593,37 @@ def rule_x5(F):
     return r
 
 
+def rule_x6(F):
+    """`roto check` / `roto test` answer for the whole script, test blocks included: a test block is type-checked like the other
+    items, which includes resolving the deferred obligations of its body (the `to_string` of every f-string interpolation) before the
+    item is accepted.  Sibling agreement of the four item checkers in typechecker::function (function, filter_map, constant, test):
+    every successful exit is dominated by a call of resolve_obligations placed after the body was checked.  (Without it the
+    obligations of a test block at the end of a file are never resolved: an ill-typed f-string passes `roto check`, a well-typed one
+    panics in lowering and `roto test` dies although every block accepts.)"""
+    r = RuleResult("C19.X6", "every item checker (function, filter_map, constant, test) resolves the deferred obligations of its body before accepting the item", floor=4)
+    n = 0
+    for name in ("function", "filter_map", "constant", "test"):
+        ps = [p for p in F.paths() if p.endswith("TypeChecker>::" + name) and "typechecker::function" in p]
+        if not ps:
+            r.missing("typechecker::function::" + name)
+            continue
+        b = F.body(ps[0])
+        if not b.mir:
+            continue
+        n += 1
+        dom = mir.dominators(b)
+        res = [bi for bi, t in mir.calls(b) if hir.last(mir.callee(t) or "") == "resolve_obligations"]
+        body_checks = [bi for bi, t in mir.calls(b) if hir.last(mir.callee(t) or "") in ("block", "expr") and "typechecker" in (mir.callee(t) or "")]
+        oks = [bi for bi, blk in enumerate(b.blocks) for st in blk["stmts"] if st["k"] == "assign" and st["p"] == [0] and st["rv"]["k"] == "agg" and st["rv"].get("variant") == "Ok"]
+        good = bool(oks) and all(any(rb in dom[ob] for rb in res) for ob in oks) and all(any(cb in dom[rb] for cb in body_checks) for rb in res) and bool(body_checks)
+        r.inst("item checker `%s`" % name, {"fn": b.path, "resolve_obligations_calls": len(res), "ok_exits": len(oks), "every_ok_exit_behind_it": good})
+        if not good:
+            r.bad(b.path, "obligations of the body not resolved", relfile(b.file), b.line,
+                  "the checker of `%s` items can accept the item without resolving the deferred obligations of its body (its siblings all do): the `to_string` of an f-string interpolation is "
+                  "neither checked nor recorded unless a later item happens to drain the list" % name)
+    return r
+
+
 def rules(ctx):
     F = ctx["F"]
-    return [rule_x1(F), rule_x2(F), rule_x3(F), rule_x4(F), rule_x5(F)]
+    return [rule_x1(F), rule_x2(F), rule_x3(F), rule_x4(F), rule_x5(F), rule_x6(F)]
